@@ -39,6 +39,8 @@ pub struct TokenParser {
 
     // tokens currently in KV cache
     llm_tokens: Vec<TokenId>,
+    // indices into llm_tokens of EOS tokens that were accepted without adding any bytes
+    eos_without_bytes: Vec<usize>,
     llm_bytes: Vec<u8>,
 
     grm_prefix: Vec<u8>,
@@ -114,6 +116,7 @@ impl TokenParser {
             dbg_grammar: String::new(),
             eos_tokens,
             llm_tokens: Vec::new(),
+            eos_without_bytes: Vec::new(),
             llm_bytes: Vec::new(),
             grm_prefix: Vec::new(),
             max_tokens_total: max_tokens,
@@ -396,11 +399,11 @@ impl TokenParser {
 
         let new_len = self.llm_tokens.len() - n_tokens;
         let mut bytes_to_drop = 0;
-        for tok in &self.llm_tokens[new_len..] {
-            if self.eos_tokens.contains(tok) {
-                // doesn't count; we hope it's last though...
-                bytes_to_drop += 0;
+        for (idx, tok) in self.llm_tokens.iter().enumerate().skip(new_len) {
+            if self.eos_without_bytes.contains(&idx) {
+                // EOS accepted at the end of the grammar; it didn't add any bytes
             } else {
+                // this includes EOS tokens named by the grammar and consumed by the parser
                 bytes_to_drop += self.tok_trie().token_len(*tok);
             }
         }
@@ -415,6 +418,7 @@ impl TokenParser {
 
         self.max_tokens_total = self.max_tokens_total.saturating_add(n_tokens);
         self.llm_tokens.truncate(new_len);
+        self.eos_without_bytes.retain(|&idx| idx < new_len);
         self.llm_bytes
             .truncate(self.llm_bytes.len() - bytes_to_drop);
         self.clear_caches();
@@ -633,6 +637,7 @@ impl TokenParser {
                         self.parser.additional_backtrack(additional_backtrack_bytes);
                     }
                     self.llm_tokens.truncate(token_ptr);
+                    self.eos_without_bytes.retain(|&idx| idx < token_ptr);
                     return Ok(backtrack_tokens);
                 }
             }
@@ -830,6 +835,7 @@ impl TokenParser {
                     accepting
                 );
                 if accepting {
+                    self.eos_without_bytes.push(self.llm_tokens.len());
                     self.llm_tokens.push(token);
                     return Ok(0);
                 }
